@@ -1044,7 +1044,7 @@ def build(tier):
             'evaluate(): for an arbitrary grid point G -- the callback is asked to evaluate G exactly when G is a candidate that is not yet among the steps (never twice, only candidates); '
             'a non-finite value is rejected with an exception, and only then, and is never stored; on return steps = old steps + one step per evaluated point holding the callback value, '
             'duplicate-free, all values finite, sorted by value (std::sort on the whole range, last); returns true iff something new was evaluated',
-            'tuner_t::optimize() + local_search_tuner_t::do_optimize(): no grid point is evaluated twice over the whole optimisation; returned steps == evaluations; '
+            'tuner_t::optimize() + local_search_tuner_t::do_optimize() + surrogate_tuner_t::do_optimize() (numerics opaque): no grid point is evaluated twice over the whole optimisation; returned steps == evaluations; '
             'at most max_evals - 1 + 3^d points are evaluated; no parameter space => exception; both refinement loops terminate; radius *= 2 cannot overflow',
             'local_search(): every candidate lies in [min, max] coefficient-wise, is src + radius * {-1,0,1}, equals src beyond the grid extent; at most 3^d candidates',
             'make_min/max/avg_igrid(): coefficient c is position 0 / size_c - 1 / size_c / 2 of space c; map_to_grid(): cell (candidate, space) is the igrid(space)-th value of that space, index in range',
@@ -1053,12 +1053,14 @@ def build(tier):
             'optimum_trial()/closest_trial() return the least index attaining the minimum (NaN never wins), optimum compares value(trial, valid, errors)',
             'ml::tune lambdas: (trial, fold) = (index div folds, index mod folds) is in range and inverts slot; the model callback is called once per task with splits[fold], '
             'new_params.tensor(trial), and its results are stored under (old_trials + trial, fold); add() precedes map(folds * new_trials); the tuner gets the values of exactly the new trials',
-            'slot lemmas: injective, onto [0, folds * trials), decoding inverts encoding',
+            'ml::tune body: folds == splits.size(), result_t{spaces, folds}, evaluations only through the tuner lambda (tuner.optimize or one direct call with a 1x0 tensor); '
+            'result_t constructor establishes the class invariant (dims (0, folds, 2, 2, 12), empty per-(trial, fold) vectors)',
+            'param_space_t::closest_grid_point_from_surrogate returns a valid grid position for every double (surrogate tuner proposes grid points only)',
+            'slot lemmas: injective, onto [0, folds * trials), decoding inverts encoding; local_search offsets lemma; budget lemma',
         ],
         'not_decided': [
-            'surrogate tuner (quadratic fit, closest_grid_point_from_surrogate); its do_optimize is only covered by the contract optimize() assumes for the virtual call',
+            'surrogate tuner numerics (quadratic fit, L-BFGS on the surrogate: opaque); that the surrogate minimiser has one coordinate per parameter space (min_state_opt_x.size() == spaces.size())',
             'thread interleavings of the (trial, fold) tasks (C17); distinct tasks write distinct slots/cells by the slot lemma + C16 index injectivity',
-            'the body of ml::tune outside its two lambdas (folds = splits.size(), result_t constructor) and the result_t constructor',
             'the value of the optimum when a mean validation error is +inf and another is exactly DBL_MAX (optimum_trial starts from DBL_MAX: such trials never win)',
             'combinatorial_iterator_t (assumed contract: each combination once), Eigen coefficient-wise operators and minCoeff, std::sort / remove_if / find_if / erase (assumed contracts)',
         ],
@@ -1071,8 +1073,9 @@ def build(tier):
             'combinatorial_iterator_t{dims} enumerates prod(dims) combinations x with 0 <= x[i] < dims[i]; Eigen array +,-,* act coefficient-wise; minCoeff() <= every coefficient',
             'local_search contract used by optimize()/do_optimize() at grid-point level is the coefficient-level contract proved for every coefficient (ghost-index lifting)',
             'tuner::max_evals in its registered domain [10, 1000]; grid sizes and 3^d at most 10^6; every parameter space has >= 1 value',
-            'ml::result_t class invariant (established by the constructor): m_values dims (T, F, 2, 2, 12), m_params (T, P), m_extras/m_log_paths hold F*T elements; C16 tensor bound 48*T*F <= 2^62',
-            'ml::tune: folds == splits.size() == result.folds(); parallel::pool_t::map(n, op) calls op with every index in [0, n) exactly once (C17); the model callback returns tensors with 2 rows (errors, losses)',
+            'ml::result_t class invariant (constructor: target result_ctor; add: preserved) is assumed by the other member contracts: m_values dims (T, F, 2, 2, 12), m_params (T, P), m_extras/m_log_paths hold F*T elements; C16 tensor bound 48*T*F <= 2^62, T <= 2^62',
+            'the lambdas of ml::tune use folds == splits.size() == result.folds() (target ml::tune) and the postcondition of add() as facts; parallel::pool_t::map(n, op) calls op with every index in [0, n) exactly once (C17); the model callback returns tensors with 2 rows (errors, losses)',
+            'the tuner lambda is called with >= 1 rows (evaluate: asserted at the callback) and one column per space (map_to_grid postcondition)',
             'at least one fold (value() divides by folds()); double treated as Real in result_t::value only',
             'store()/stats()/extra()/closest_trial() preconditions are the asserts of the functions (compiled out under NDEBUG); discharged at the call sites in ml::tune',
         ],
